@@ -97,6 +97,49 @@ theorem split_partitions {d : DS α} {no nc nt : Nat} (h : d.WF no nc nt) {by_ :
     intro kc hkc
     rw [gather_indicesWhere _ col kc.2 (by rw [hcl, h.obsT kc hkc])]
 
+/-- `split_channel(by)`: the same along the channel axis — in every row the columns of part
+    `u` are the positions labelled `u` in original order, the channel descriptors are gathered
+    with the same index list, observation/time descriptors are untouched, and the index lists
+    partition the channels. -/
+theorem split_channel_partitions {d : DS α} {no nc nt : Nat} (h : d.WF no nc nt) {by_ : String}
+    {col : Col} {parts : List (DS α)} (hcol : d.chan.col by_ = some col)
+    (hp : splitChan by_ d = some parts) :
+    parts.map (·.meas) = (uniqueFirst col).map (fun u => d.meas.map
+        (fun r => ((col.zip r).filter (fun lr => lr.1 == u)).map (·.2))) ∧
+    parts.map (·.chan) = (uniqueFirst col).map
+        (fun u => d.chan.map (fun kc => (kc.1, ((col.zip kc.2).filter (fun lr => lr.1 == u)).map (·.2)))) ∧
+    (∀ p ∈ parts, p.obs = d.obs ∧ p.time = d.time) ∧
+    ((uniqueFirst col).flatMap (fun u => indicesWhere (fun x => x == u) col)).Perm (List.range nc) := by
+  have hcl : col.length = nc := h.chanT _ (col_mem hcol)
+  refine ⟨?_, ?_, splitChan_rest hp, hcl ▸ groups_perm_range col⟩
+  · rw [splitChan_meas hcol hp]
+    apply List.map_congr_left
+    intro u _
+    apply List.map_congr_left
+    intro r hr
+    exact gather_indicesWhere _ col r (by rw [hcl, h.chanLen r hr])
+  · rw [splitChan_chan hcol hp]
+    apply List.map_congr_left
+    intro u _
+    unfold Tbl.gather
+    apply List.map_congr_left
+    intro kc hkc
+    rw [gather_indicesWhere _ col kc.2 (by rw [hcl, h.chanT kc hkc])]
+
+/-- `split_time(by)`: one part per distinct value (first appearance), part `u` = the time points
+    labelled `u` in original order (`gatherTime`, so `gatherTime_cell` applies); the index
+    lists partition the time points. -/
+theorem split_time_partitions {d : DS α} {no nc nt : Nat} (h : d.WF no nc nt) {by_ : String}
+    {col : Col} {parts : List (DS α)} (hcol : d.time.col by_ = some col)
+    (hp : splitTime by_ d = some parts) :
+    parts = (uniqueFirst col).map (fun u => gatherTime (indicesWhere (fun x => x == u) col) d) ∧
+    (∀ u, ∀ t ∈ indicesWhere (fun x => x == u) col, t < nt) ∧
+    ((uniqueFirst col).flatMap (fun u => indicesWhere (fun x => x == u) col)).Perm (List.range nt) := by
+  have hcl : col.length = nt := h.timeT _ (col_mem hcol)
+  unfold splitTime at hp
+  simp only [hcol, Option.some.injEq] at hp
+  exact ⟨hp.symm, fun u t ht => hcl ▸ indicesWhere_lt t ht, hcl ▸ groups_perm_range col⟩
+
 /-! ### 3. subsets: exactly the matching items in original order -/
 
 theorem subset_exact_in_order {d d' : DS α} {no nc nt : Nat} (h : d.WF no nc nt) {by_ : String}
@@ -185,6 +228,19 @@ theorem merge_split_multiset {d m : DS α} {no nc nt : Nat} (h : d.WF no nc nt) 
   refine ⟨hσ, hmeas, ?_, hsame.chan, hsame.time, hsame.wf, hsame.cells⟩
   rw [hmeas]
   exact gather_perm (by rw [h.obsLen]; exact hσ)
+
+/-- … and the descriptor columns travel with the rows: only `by` itself can be promoted from
+    the parts' dataset descriptors, and every other observation descriptor column of `d`
+    reappears in the merged dataset re-indexed by the *same* permutation σ as the measurement
+    rows (keys of a descriptor dictionary are unique). -/
+theorem merge_split_columns {d m : DS α} {no nc nt : Nat} (h : d.WF no nc nt) {by_ : String}
+    {col : Col} {parts : List (DS α)} (hcol : d.obs.col by_ = some col)
+    (hp : splitObs by_ d = some parts) (hm : merge parts = some m)
+    (hnd : (d.obs.map (·.1)).Nodup) :
+    (∀ k ∈ varyKeys parts, k = by_) ∧
+    ∀ kc ∈ d.obs, kc.1 ∉ varyKeys parts →
+      (kc.1, gather ((uniqueFirst col).flatMap (fun u => indicesWhere (fun x => x == u) col)) kc.2) ∈ m.obs :=
+  ⟨varyKeys_sub hp, fun kc hkc hk => merge_split_column h hcol hp hm hnd (k := kc.1) (c := kc.2) hkc hk⟩
 
 /-! ### 6. odd-even splits -/
 
@@ -376,7 +432,35 @@ theorem average_by_is_group_mean [Add α] [Zero α] [Div α] [NatCast α] {d : D
     simp only [List.getElem?_map, List.getElem?_zipIdx, hu, Option.map_some, Nat.zero_add, hgrp,
       List.length_map]
 
+/-- `get_measurements_tensor(by)`: slice `a` (the a-th distinct value `u`), channel `j` lists
+    the measurements of exactly the rows labelled `u`, in original order. -/
+theorem tensor_entry {d : DS α} {by_ : String} {col : Col} {t : List (List (List α))} {us : Col}
+    (hcol : d.obs.col by_ = some col) (hlen : col.length = d.meas.length)
+    (ht : tensorBy by_ d = some (t, us)) :
+    us = uniqueFirst col ∧
+    ∀ (a : Nat) (u : Lbl), us[a]? = some u → ∀ j, j < d.nChan →
+      (t[a]?).bind (fun sl => sl[j]?) = some
+        ((((col.zip d.meas).filter (fun lr => lr.1 == u)).map (·.2)).filterMap
+          (fun r => (r[j]?).bind (fun c => c[0]?))) := by
+  unfold tensorBy at ht
+  simp only [hcol, Option.some.injEq, Prod.mk.injEq] at ht
+  obtain ⟨htt, hus⟩ := ht
+  refine ⟨hus.symm, ?_⟩
+  intro a u hu j hj
+  rw [← hus] at hu
+  rw [← htt]
+  simp only [List.getElem?_map, hu, Option.map_some, Option.bind_some, List.getElem?_range hj]
+  rw [gather_indicesWhere _ col d.meas hlen]
+
 /-! ### 11. the invariant over arbitrary operation sequences -/
+
+/-- the hypothesis of the invariant is what the constructors check: an object that passes
+    the executable alignment test `wfB` (descriptor lengths = axis lengths, rectangular
+    array; the driver rejects every other initial object, as the real constructors do)
+    is aligned. -/
+theorem constructor_check_sound {d : DS α} (h : d.wfB = true) : WFex d :=
+  ⟨_, _, _, wfB_sound h⟩
+
 
 /-- For **every finite sequence** of the listed operations that keep measurement values
     (split / subset by observation, channel or time, sort_by, merge, odd-even and nested
@@ -453,6 +537,12 @@ example : (splitObs "c" ex).map (·.length) = some 2 := by decide
 example : ((splitObs "r" ex).bind merge).map (·.meas)
     = some [[[11], [12]], [[41], [42]], [[21], [22]], [[31], [32]]] := by decide
 example : (oddEven "c" ex).map (fun p => (p.1.meas.length, p.2.meas.length)) = some (2, 2) := by decide
+-- merge_split_columns: unique keys; split_channel_partitions / tensor_entry / constructor_check_sound
+example : (ex.obs.map (·.1)).Nodup := by decide
+example : (splitChan "n" ex).map (·.length) = some 2 := by decide
+example : (tensorBy "c" ex).map (·.1) = some [[[11, 31], [12, 32]], [[21, 41], [22, 42]]] := by decide
+example : ex.wfB = true ∧ exT.wfB = true := by decide
+example : (splitTime "time" exT).map (·.length) = some 3 := by decide
 -- subset_exact_in_order / sort_stable_perm
 example : (subsetObs "c" [.str "a"] ex).map (·.meas) = some [[[21], [22]], [[41], [42]]] := by decide
 example : (sortBy "c" ex).isSome = true := by decide
